@@ -939,6 +939,7 @@ def check(pid, tier):
     rep = Report(pid, tier, "model_checking")
     tag = f"c06_{os.getpid()}"
     INFO.clear()
+    W.SKIPPED.clear()
     try:
         rc = _check(rep, tier, tag)
     except Exception as ex:
